@@ -37,6 +37,12 @@ theorem cursor_after_handling :
     RelayerLoop.steps.idxOf .dbPut < RelayerLoop.steps.idxOf .assignCursor ∧
     RelayerLoop.steps.idxOf .assignCursor < RelayerLoop.steps.length := by decide
 
+/-- exactly ONE site in the whole of `Start` writes the LevelDB cursor (a direct `DB.Put` or a call of a
+    package function containing one — followed one level), and it is the `dbPut` step after the submission:
+    no checkpoint writes between, before or inside the submission. -/
+theorem single_cursor_write :
+    RelayerLoop.cursorWriteSteps = [.dbPut] ∧ RelayerLoop.cursorWriteSitesInStart = 1 := by decide
+
 /-- the arithmetic and the operands: `endingBlock = newHead.Number − trailingBlocks`, skipped when negative;
     a zero cursor is set to `endingBlock`; the query is `[lastProcessedBlock, endingBlock]`; the value written
     and assigned is `endingBlock + 1`. -/
@@ -123,6 +129,71 @@ theorem resume_from_persisted (t p : Nat) (ins : List In)
     (run t (init p) ins).1.mem = (run t (init p) ins).1.persisted := by
   have h := run_gap t ins (init p) _ [] (init_gap p)
   exact h.agree hp
+
+/-! ### the same, per bridge event, in the alphabet the real loop is observed in
+
+  An observed trace may contain SEVERAL broadcasts and SEVERAL cursor writes per iteration (`Raw`); the
+  admissibility predicate `rawTraceOK` allows any such grouping as long as every claim is an event of the
+  range just queried and every cursor write — final or checkpoint — stays within the range and has every
+  event of the blocks below it broadcast first.  The loop that exists does one broadcast and one write per
+  iteration; for every placement of events its traces are admissible and gap-free per event. -/
+
+/-- for every placement of bridge events in blocks and every schedule (crash points between any two
+    effects of an iteration included), the event-level rendering of the trace is admissible: claims only of
+    confirmed, just-queried blocks; contiguous queries; no cursor write beyond an unsubmitted event; restarts
+    resume from the persisted cursor. -/
+theorem raw_trace_admissible (t p : Nat) (place : List (Nat × Nat)) (ins : List In) :
+    rawTraceOK t p place (lower place (run t (init p) ins).2) = true := by
+  have hA : Agree (init p) { c := p, mh := 0, db := p, pending := none, handled := false } :=
+    ⟨rfl, rfl, rfl, rfl, rfl⟩
+  obtain ⟨o', h, _⟩ := run_observe t ins (init p) _ hA
+  have hR : Rel place { c := p, mh := 0, db := p, pending := none, handled := false }
+      { c := p, mh := 0, db := p, pending := none, sent := [] } := ⟨rfl, rfl, rfl, Or.inl rfl⟩
+  obtain ⟨r', hr, _⟩ := observeAll_sim t place _ _ o' _ h hR
+  simp [rawTraceOK, hr]
+
+/-- `no_gap_across_crashes`, per event: every bridge event placed in a block from the first scanned block up
+    to (excluding) the persisted cursor has been broadcast at least once — for every placement, schedule,
+    failure pattern and crash point. -/
+theorem raw_gap_free (t p : Nat) (place : List (Nat × Nat)) (ins : List In) :
+    rawGapFree p place (lower place (run t (init p) ins).2) = true := by
+  have h := run_gap t ins (init p) _ [] (init_gap p)
+  simp only [List.nil_append] at h
+  unfold rawGapFree rawCurOf
+  rw [rawCurOf_lower]
+  simp only [Bool.or_eq_true, decide_eq_true_eq, List.all_eq_true]
+  by_cases hz : (List.foldl curStep { db := p, c := p, first := p } (run t (init p) ins).2).db = 0
+  · left; exact hz
+  · right
+    intro nb hnb
+    by_cases hin : (List.foldl curStep { db := p, c := p, first := p } (run t (init p) ins).2).first ≤ nb.2 ∧
+        nb.2 < (List.foldl curStep { db := p, c := p, first := p } (run t (init p) ins).2).db
+    · have hdb := h.db
+      have hcov := h.cov (by rw [← hdb]; exact hz) nb.2 hin.1 (by rw [← hdb]; exact hin.2)
+      have := covered_claims place _ nb hnb hcov
+      simp [hin.1, hin.2, this]
+    · have : (decide ((List.foldl curStep { db := p, c := p, first := p } (run t (init p) ins).2).first ≤ nb.2) &&
+          decide (nb.2 < (List.foldl curStep { db := p, c := p, first := p } (run t (init p) ins).2).db)) = false := by
+        simp only [Bool.and_eq_false_iff, decide_eq_false_iff_not]
+        by_cases h1 : (List.foldl curStep { db := p, c := p, first := p } (run t (init p) ins).2).first ≤ nb.2
+        · right; intro h2; exact hin ⟨h1, h2⟩
+        · left; exact h1
+      simp [this]
+
+/-- the event-level judge is not tied to one-broadcast-one-write: a loop that relays a range in two
+    transactions and checkpoints on a BLOCK boundary in between is admissible, also when killed after the
+    checkpoint; the same loop checkpointing INSIDE a block (events 3 and 4 share block 12; the cursor is
+    written as 13 when only 1–3 have gone out) is rejected, and after a kill its trace has a gap. -/
+example :
+    let place := [(1, 10), (2, 11), (3, 12), (4, 12), (5, 14)]
+    rawTraceOK 50 10 place [.head 70, .query 10 20 true, .claims [1, 2], .put 12, .claims [3, 4, 5], .put 21] = true ∧
+    rawTraceOK 50 10 place [.head 70, .query 10 20 true, .claims [1, 2], .put 12, .restart 12,
+                            .head 71, .query 12 21 true, .claims [3, 4, 5], .put 22] = true ∧
+    rawGapFree 10 place [.head 70, .query 10 20 true, .claims [1, 2], .put 12, .restart 12,
+                         .head 71, .query 12 21 true, .claims [3, 4, 5], .put 22] = true ∧
+    rawTraceOK 50 10 place [.head 70, .query 10 20 true, .claims [1, 2, 3], .put 13, .claims [4, 5], .put 21] = false ∧
+    rawGapFree 10 place [.head 70, .query 10 20 true, .claims [1, 2, 3], .put 13, .restart 13,
+                         .head 71, .query 13 21 true, .claims [5], .put 22] = false := by decide
 
 /-! ### non-vacuity: concrete schedules with events, failures and crashes at several points -/
 
